@@ -161,7 +161,12 @@ def _worker_inner(modname, kind, arg, tier):
             seed = int(os.environ.get("VERIF_SEED", "0") or 0)
             core.z3.set_param("smt.random_seed", seed)
             core.z3.set_param("sat.random_seed", seed)
+            core.DUMP.update(on=(tier == "thorough"), max=int(os.environ.get("VERIF_CROSSCHECK_PER_SHAPE", "5")), items=[])
             res = mod.run_shape(arg, tier)
+            res["cross_solver"] = _cross_check(core.DUMP["items"]) if core.DUMP["items"] else {"posed": 0}
+            core.DUMP.update(on=False, items=[])
+            if res["cross_solver"].get("disagree"):
+                res["error"] = "second solver (cvc5) answers sat on a VC z3 reported unsat: harness/solver error"
             res["solver_s"] = round(core.STATS["solver_s"], 3)
             res["feas_queries"] = core.STATS["feas_queries"]
             res["vc_queries"] = core.STATS["vc_queries"]
@@ -182,6 +187,41 @@ def _worker_inner(modname, kind, arg, tier):
     if isinstance(res, dict) and "wall_s" in res:
         res["wall_s"] = round(time.time() - t0, 3)
     return res
+
+
+def _cross_check(texts, tlimit_ms=8000):
+    """re-decide dumped (unsat) VCs with cvc5; unknown there is ignored, sat is a disagreement"""
+    out = {"posed": len(texts), "unsat": 0, "unknown": 0, "disagree": 0, "errors": 0}
+    try:
+        import cvc5
+    except ImportError:
+        out["errors"] = len(texts)
+        return out
+    for txt in texts:
+        try:
+            slv = cvc5.Solver()
+            slv.setOption("tlimit-per", str(tlimit_ms))
+            slv.setLogic("ALL")
+            parser = cvc5.InputParser(slv)
+            parser.setStringInput(cvc5.InputLanguage.SMT_LIB_2_6, txt, "vc")
+            sm = parser.getSymbolManager()
+            ans = None
+            while True:
+                cmd = parser.nextCommand()
+                if cmd.isNull():
+                    break
+                o = cmd.invoke(slv, sm).strip()
+                if o in ("sat", "unsat", "unknown"):
+                    ans = o
+            if ans == "unsat":
+                out["unsat"] += 1
+            elif ans == "sat":
+                out["disagree"] += 1
+            else:
+                out["unknown"] += 1
+        except Exception:
+            out["errors"] += 1
+    return out
 
 
 def load_known(prop):
@@ -354,6 +394,7 @@ def run_check(modname, tier, seed):
                         "vc_unknown": sum(len(r.get("unknown", [])) for r in results),
                         "feasibility": sum(r.get("feas_queries", 0) for r in results),
                         "solver_s": round(sum(r.get("solver_s", 0) for r in results), 2)},
+            "second_solver_cvc5": {k: sum((r.get("cross_solver") or {}).get(k, 0) for r in results) for k in ("posed", "unsat", "unknown", "disagree", "errors")},
             "vacuity": {"reachability_twins_sat": sum(1 for r in results if r.get("twin_ok") is True),
                         "reachability_twins_failed": sum(1 for r in results if r.get("twin_ok") is False)},
             "replays_on_real_build": replays_run,
